@@ -101,6 +101,7 @@ FRAME_KANI_BOUNDED = [
     H('frame_capacity_asserts_len1', bounded='data length 1'),
     H('frame_capacity_asserts_len2', bounded='data length 2'), H('frame_capacity_asserts_len16', bounded='data length 16'),
     H('chunks_map_collect_pipeline', bounded='exactly 3 hex pairs', covers=1),
+    H('frame_capacity_asserts_len64', bounded='data length 64', tier='thorough'),
 ]
 
 PROPS['C01'] = {
@@ -124,7 +125,7 @@ PROPS['C03'] = {
                'lemma_reencode', 'lemma_shape_groups', 'lemma_group_names', 'lemma_hex_num2', 'lemma_hex_num4', 'lemma_payload_of_view',
                'lemma_byte_nibbles', 'lemma_digit_of_val', 'lemma_pairs']}],
     'tools': [{'kind': 'regexeq'}, {'kind': 'witness', 'domains': ['frame-decode'], 'bound': 'all strings of length <= 4 over a 12-symbol structural alphabet around 4 skeletons; single-fault mutations of 30 valid frames; long frames with >= 255 pairs; 20000 random strings'}],
-    'kani': [{'package': 'flipdot-core', 'harnesses': FRAME_KANI_CONTRACTS + [FRAME_KANI_BOUNDED[-1]]}],
+    'kani': [{'package': 'flipdot-core', 'harnesses': FRAME_KANI_CONTRACTS + [FRAME_KANI_BOUNDED[-2]]}],
     'functions': FRAME_FNS,
     'assumptions': [A_USIZE, A_COW, A_INTO, A_REGEX, A_CHUNKS, A_SPEC, A_TOOLS, A_DEBUG,
                     'the data: field of the error values is not constrained by the contract (Vec<u8>: From<&[u8]> has no spec); C03 speaks of the counts and checksum values only'],
@@ -158,7 +159,7 @@ PROPS['C02'] = {
                'lemma_strip_appended', 'lemma_invalid_len', 'lemma_invalid_char', 'lemma_upper_hex_val_injective',
                'lemma_shape_groups', 'lemma_group_names']}],
     'tools': [{'kind': 'regexeq'}, {'kind': 'witness', 'domains': ['frame-decode'], 'bound': 'single-fault mutations (substitution by 14 bytes, deletion, duplication, swap, every prefix) at every position of 30 valid frames, with and without CRLF, plus the C03 enumeration'}],
-    'kani': [{'package': 'flipdot-core', 'harnesses': FRAME_KANI_CONTRACTS + [FRAME_KANI_BOUNDED[-1]]}],
+    'kani': [{'package': 'flipdot-core', 'harnesses': FRAME_KANI_CONTRACTS + [FRAME_KANI_BOUNDED[-2]]}],
     'functions': FRAME_FNS,
     'assumptions': [A_USIZE, A_COW, A_INTO, A_REGEX, A_CHUNKS, A_SPEC, A_TOOLS, A_DEBUG],
     'explanation': 'C02 = five lemmas over the codec specification (every position x every replacement byte; every deletion; every duplication; every adjacent transposition of unequal characters; every proper prefix — each for enc(f) and enc(f)+CRLF, for every frame with <= 255 data bytes), transferred to the real code by the contracts to_bytes == enc, to_bytes_with_newline == enc+CRLF and from_bytes == dec; second sentence: lemma_accepted_is_consistent + contract D.',
@@ -328,7 +329,7 @@ PROPS['C08'] = {
     'level': 'other',
     'kani': [{'package': 'flipdot', 'harnesses': [H('c08_configure_against_sign_machine', covers=3), H('c08_configure_if_needed_against_sign_machine', covers=2),
                                                    H('c08_show_and_load_next_against_sign_machine', covers=2),
-                                                   H('c08_transfer_base_case', covers=2), H('c08_transfer_step_is_inductive', covers=3), H('c08_transfer_final_case', covers=2)] + [H(n, covers=2, tier=('quick' if 'dash_30x7' in n else 'thorough')) for n in C08_SEND], 'timeout': 7200}],
+                                                   H('c08_transfer_base_case', covers=2), H('c08_transfer_step_is_inductive', covers=3), H('c08_transfer_final_case', covers=2)] + [H(n, covers=2, tier=('quick' if 'dash_30x7' in n else 'thorough')) for n in C08_SEND if '160x16' not in n], 'timeout': 7200}],
     'tools': [{'kind': 'witness', 'domains': ['e2e'], 'bound': '110000 random walks: 5 addresses x 11 sign types x both flip styles, prior state reached by 0..39 random protocol messages (incl. abandoned transfers, foreign addresses, '
                'configuration as another / unknown type), page lists of length 0..2, then configure (or configure_if_needed where the property quantifies it) + send_pages + show + load-next + repeated send on the REAL Sign x REAL VirtualSignBus'}],
     'functions': ['composition of the contracts of flipdot::sign::Sign (C10/C09/C11: the real controller sends exactly what the protocol monitor prescribes) and flipdot_testing::VirtualSign (C13: the real sign step equals spec_step)'],
